@@ -58,6 +58,7 @@ pub fn history_props(id: &str) -> Option<HistoryProp> {
                 HistoryTier { label: "C01-small", gen: GenCfg::small(), quick: 6000, thorough: 120_000 },
                 HistoryTier { label: "C01-medium", gen: GenCfg { avail_mem: medium_mem(), ..GenCfg::medium() }, quick: 300, thorough: 5000 },
                 HistoryTier { label: "C01-large", gen: gen_large(), quick: 0, thorough: 160 },
+                HistoryTier { label: "C01-bulk", gen: gen_bulk(), quick: 96, thorough: 1500 },
             ],
             nontrivial: |h, st| st.get("builds_ok") >= 2 && has_delete_or_overwrite_between_builds(h, st) && st.get("has_split") > 0,
             assumptions: base_assume,
@@ -73,6 +74,7 @@ pub fn history_props(id: &str) -> Option<HistoryProp> {
                 HistoryTier { label: "C02-small", gen: GenCfg::small(), quick: 5000, thorough: 100_000 },
                 HistoryTier { label: "C02-medium", gen: GenCfg { avail_mem: medium_mem(), ..GenCfg::medium() }, quick: 250, thorough: 4000 },
                 HistoryTier { label: "C02-large", gen: gen_large(), quick: 0, thorough: 120 },
+                HistoryTier { label: "C02-bulk", gen: gen_bulk(), quick: 32, thorough: 600 },
             ],
             nontrivial: |_h, st| st.get("builds_ok") >= 2 && st.get("has_split") > 0 && st.get("exact_count_ge2") > 0,
             assumptions: base_assume,
@@ -201,6 +203,16 @@ pub fn history_props(id: &str) -> Option<HistoryProp> {
                     quick: 0,
                     thorough: 300,
                 },
+                // thousands of dense ids in one round, with every memory hint
+                HistoryTier {
+                    label: "C14-bulk",
+                    gen: GenCfg {
+                        avail_mem: vec![(1, vec![None]), (4, vec![Some(0), Some(4096), Some(10 * 4096), Some(200 * 4096), Some(1 << 40), Some(usize::MAX)])],
+                        ..gen_bulk()
+                    },
+                    quick: 96,
+                    thorough: 1500,
+                },
                 HistoryTier {
                     label: "C14-small",
                     gen: GenCfg {
@@ -277,6 +289,32 @@ fn gen_large() -> GenCfg {
         n_trees: vec![(2, vec![None]), (3, vec![Some(1), Some(2), Some(5)])],
         abort_pct: 0,
         build_pct: 100,
+        ..GenCfg::medium()
+    }
+}
+
+/// Thousands of dense ids arriving in one round: first builds and incremental insertions whose descendants bitmaps
+/// exceed one roaring array container (4096) and whose encoded nodes exceed 8 KiB.
+fn gen_bulk() -> GenCfg {
+    GenCfg {
+        dims: vec![(3, vec![2, 3, 4]), (1, vec![16])],
+        max_indexes: 1,
+        rounds: (1, 3),
+        classes: vec![ValueClass::Uniform, ValueClass::Clustered, ValueClass::FarCluster, ValueClass::Grid, ValueClass::Collinear, ValueClass::TwoValues],
+        first_ops: (2, 30),
+        later_ops: (5, 200),
+        id_pool: (4200, 9000),
+        bulk: Some((4097, 9000)),
+        // ids spread over the whole u32 range cost ~10 bytes each in a descendants bitmap instead of 2
+        pool_weights: [2, 1, 4],
+        threads: vec![1, 4, 16],
+        op_weights: [70, 28, 2, 0, 0],
+        avail_mem: medium_mem(),
+        n_trees: vec![(1, vec![None]), (3, vec![Some(1), Some(2), Some(3)])],
+        split_after: vec![(3, vec![None]), (2, vec![Some(2), Some(10), Some(50)]), (1, vec![Some(5000), Some(10_000)])],
+        abort_pct: 0,
+        build_pct: 100,
+        edge_ids: false,
         ..GenCfg::medium()
     }
 }
